@@ -118,6 +118,7 @@ def gen_outcome(symgen, cg, ast, symtab_seed, **kw):
         return ('foreign', type(exc).__name__, str(exc)[:120])
     try:
         mi2, text = cg.genCode(ast, tab, **kw)
+        KEPT.append((mi2, info_tuple(mi2)))
         return (sym, 'text', text, info_tuple(mi2))
     except error.PySmiError as exc:
         return (sym, 'generr', type(exc).__name__, re.sub(r'0x[0-9a-f]+', '', exc.msg)[:120])
@@ -126,6 +127,7 @@ def gen_outcome(symgen, cg, ast, symtab_seed, **kw):
 
 
 _BASE_TAB = {}
+KEPT = []       # (MibInfo object, its fields when it was returned) - results must not change afterwards
 
 
 def base_symtab():
@@ -241,6 +243,7 @@ def case_codegen(idx, rng, tier, res):
     if len(units) < 2:
         return
     shared_sym, shared_cg = SymtableCodeGen(), pipeline.make_codegen(backend)
+    del KEPT[:]
     prev_rev = None
     prev = None
     for k, (how, ast, tab, m) in enumerate(units):
@@ -291,6 +294,15 @@ def case_codegen(idx, rng, tier, res):
                     backend, first_difference(outs[0], outs[1])), replay={'backend': backend}, component=backend)
         prev_rev = has_rev if how == 'valid' else prev_rev
         prev = how
+    # summaries handed out earlier must still say what they said then
+    for mi, snap in KEPT:
+        res.count('kept_results_rechecked')
+        now = info_tuple(mi)
+        if now != snap:
+            res.violation('earlier_result_changed', '%s: the summary returned for %s changed after later work on the '
+                          'same generator: %s' % (backend, snap[0], first_difference(snap, now)),
+                          replay={'backend': backend}, component=backend)
+            break
     res.sig = harness.stable_hash(['c', backend, [(u[0], u[3].name, len(u[3].decls)) for u in units]])
     res.evals = len(units)
     if idx % 700 == 1:
@@ -345,13 +357,16 @@ def case_compiler(idx, rng, tier, res):
                          CallbackWriter(lambda n, d, c: written.setdefault(n, []).append(d)))
     shared.addSources(CallbackReader(lambda n, c: cur.get(n)))
     shared.addSearchers(StubSearcher(*(pipeline.BASE_STUBS + pipeline.HOME_STUBS)))
+    earlier = []
     for k, (texts, names, opts) in enumerate(calls):
         cur.clear()
         cur.update(pipeline.fixtures())
         cur.update(texts)
         written.clear()
         try:
-            a = summarize(shared.compile(*names, **opts), written)
+            raw = shared.compile(*names, **opts)
+            a = summarize(raw, written)
+            earlier.append((raw, dict(written), a))
         except Exception as exc:
             a = ('raised', type(exc).__name__, str(exc)[:100])
         try:
@@ -369,6 +384,13 @@ def case_compiler(idx, rng, tier, res):
             res.violation('compiler_history_dependence', 'compile() call %d on a long-lived MibCompiler (%s) '
                           'differs from a fresh one for %s' % (k, backend, detail or short(a)),
                           replay={'call': k, 'backend': backend}, component='compiler')
+    for raw, w, snap in earlier:
+        res.count('kept_results_rechecked')
+        if summarize(raw, w) != snap:
+            res.violation('earlier_result_changed', 'statuses returned by an earlier compile() call changed after a '
+                          'later call on the same MibCompiler (%s)' % backend, replay={'backend': backend},
+                          component='compiler')
+            break
     res.count('compile_histories')
     res.sig = harness.stable_hash(['m', backend, [sorted(c[1]) for c in calls]])
     res.nontrivial = True
